@@ -29,7 +29,7 @@ EXPLANATION = (
     "value the branch conditions on the path admit (forward dataflow of constant upper bounds; a COPY_1 "
     "element reached with offset 2048 would need a twelfth offset bit); (8) carquet_zstd_compress / _decompress "
     "against a model of libzstd: OK exactly when the library finished the frame, the caller's extents handed "
-    "over unchanged, and no compression context that the wrapper keeps is left inside an unfinished frame. (8) LZ4 length extensions: every loop that emits 255-bytes while taking 255 off a counter runs exactly while the counter is >= 255 (so the byte after it is below 255), and every loop that adds length bytes reads on exactly after a 255 (R35). (9) the Snappy length preamble is LEB128 on both sides: writer and reader executed for every value on either side of a 7-bit boundary (R38). Decides these clauses, not "
+    "over unchanged, and no compression context that the wrapper keeps is left inside an unfinished frame. (8) LZ4 length extensions: every loop that emits 255-bytes while taking 255 off a counter runs exactly while the counter is >= 255 (so the byte after it is below 255), and every loop that adds length bytes reads on exactly after a 255 (R35). (9) the Snappy length preamble is LEB128 on both sides: writer and reader executed for every value on either side of a 7-bit boundary (R38). (10) src/compression holds no mutable file-scope or static-local state other than thread-local contexts and idempotent lazy tables (rule shared with C07): a codec call's result depends on its arguments only, also when calls overlap on several threads. Decides these clauses, not "
     "the round trip nor sufficiency of the bound formulas.")
 
 SN = "src/compression/snappy.c"
@@ -119,6 +119,11 @@ def run(ctx):
     from ..rules import fieldfit
     nff, nffd = fieldfit.check(ctx, P.funcs_in("src/compression/snappy.c", "src/compression/lz4.c"))
     ctx.floor("C09 packed tag bytes decided", nffd, 5)
+    ctx.clause("C09.10 the codec entry points are functions of their arguments: no mutable file-scope or static state in src/compression that is not thread-local or an idempotent lazy table "
+               "(two decompressions may overlap on different threads - the batch reader runs them in a parallel region)")
+    from . import C07
+    ngs = C07.global_state(ctx, scope="src/compression/", rule="R7.codec-state")
+    ctx.count("codec_file_scope_variables", ngs)
     ctx.clause("C09.9 the Snappy length preamble is the LEB128 of the input length, written and read (values on either side of every 7-bit boundary)")
     from ..rules import varint
     nvw, nvr = varint.check(ctx, files=(SN,))
